@@ -148,6 +148,8 @@ def run(check):
         items.append((case, sem, g))
     stats = {"kinds": {}, "present": 0, "absent": 0, "discriminators": {}}
     with harness.Runner() as rn:
+        if not rn.hang_oracle_works():
+            check.fail_broken("the hang oracle (Go runtime deadlock report) does not fire in this build")
         out = rn.run_cases([c for c, _s, _g in items], per_case_timeout=60)
     by_id = {c["id"]: (c, s, g) for c, s, g in items}
     for cid in sorted(out):
